@@ -143,6 +143,10 @@ func newC03World(rt *rapid.T) *c03World {
 				// L2 sender strings are free-form: 128, 129 or 300 characters
 				from = strings.Repeat("s", rapid.SampledFrom([]int{127, 128, 129, 300}).Draw(rt, "senderLen"))
 			}
+			if rapid.IntRange(0, 7).Draw(rt, "hexSender") == 0 {
+				// an EVM-style L2: senders are 0x + 40 hex digits, in whatever case the L2 wrote them
+				from = "0x" + rapid.StringMatching("[0-9a-fA-F]{40}").Draw(rt, "hexFrom")
+			}
 			if rapid.IntRange(0, 5).Draw(rt, "selfWithdrawal") == 0 {
 				from = to // the L2 sender withdraws to the same address string on L1
 			}
@@ -213,7 +217,7 @@ var c03Rich, _ = math.NewIntFromString("1180591620717411303424") // 2^70
 var c03Kinds = []string{"none", "flip-storage", "flip-blockhash", "flip-proof", "version", "seq", "amount", "amount+2^64", "bridge", "index", "swap-from-to",
 	"other-storage", "other-blockhash", "drop-last", "drop-first", "dup-item", "swap-items", "extend", "empty-proof", "cut-to-inner", "other-pos-proof",
 	"from-case", "from-nul", "move-byte", "denom", "to-other-user", "dead-output", "inner-as-root", "to-uppercase",
-	"lengthen-blockhash", "lengthen-storage", "shorten-blockhash", "lengthen-version", "extend-many", "denom-l2-twin", "hex-item", "blank-from", "blank-to", "from-tail", "to-tail", "reverse-proof", "empty-version"}
+	"lengthen-blockhash", "lengthen-storage", "shorten-blockhash", "lengthen-version", "extend-many", "denom-l2-twin", "hex-item", "blank-from", "blank-to", "from-tail", "to-tail", "reverse-proof", "empty-version", "from-one-letter-case"}
 
 // perturb applies one perturbation kind in place; returns false if it does not apply.
 func (w *c03World) perturb(rt *rapid.T, kind string, m *ophosttypes.MsgFinalizeTokenWithdrawal, o *mOutput, pos int) bool {
@@ -341,6 +345,20 @@ func (w *c03World) perturb(rt *rapid.T, kind string, m *ophosttypes.MsgFinalizeT
 			return false
 		}
 		m.From = strings.ToUpper(m.From)
+	case "from-one-letter-case":
+		// one letter of the sender in the other case (past a 0x prefix, so that a hex sender stays a hex sender)
+		var idx []int
+		for i, ch := range []byte(m.From) {
+			if i >= 2 && ((ch >= 'a' && ch <= 'z') || (ch >= 'A' && ch <= 'Z')) {
+				idx = append(idx, i)
+			}
+		}
+		if len(idx) == 0 {
+			return false
+		}
+		bz := []byte(m.From)
+		bz[idx[rapid.IntRange(0, len(idx)-1).Draw(rt, "letter")]] ^= 0x20
+		m.From = string(bz)
 	case "from-nul":
 		m.From += "\x00"
 	case "move-byte":
